@@ -220,10 +220,12 @@ func init() {
 	wrapDesc := "every listed codec wrapper through the go-dicom codec interface on 2x2 8-bit frames: one output frame per input frame in order; frame i equals a fresh codec's output for frame i alone and the same object's output on a later call; caller buffers unchanged; decoded length Rows*Cols*SPP*ceil(BitsAllocated/8) and, for lossless syntaxes, the source bytes; the engine's write log shows no store into a package-level variable, the codec object, the shared (already valid) parameters object or a caller buffer"
 	wrapBounds := [2]string{"2 frames; codecs: RLE (symbolic pixels), JPEG lossless .70, SV1 .57, baseline, JPEG-LS lossless/near, JPEG 2000 lossless, HTJ2K lossless (concrete distinct frames); parameters nil or one shared default object", "3 frames"}
 	wrapNote := []string{"pixel contents are concrete for all codecs except RLE (the write-set and frame-mapping logic does not depend on them); extended, JPEG 2000 lossy/Part-2 and HTJ2K lossy wrappers are not included"}
-	reg(Check{Property: "C10", Assumptions: wrapNote, Harnesses: []Harness{
+	reg(Check{Property: "C10", MsgPrefixes: []string{"C10 "}, Assumptions: wrapNote, Harnesses: []Harness{
 		{Pkg: "internal/zzc10", Fn: "VerifC10Wrapper", Desc: wrapDesc, Bounds: wrapBounds, Params: [2]map[string]int64{P("frames", 2), P("frames", 3)}, MaxSteps: 900_000_000},
+		{Pkg: "jpeg2000", Fn: "VerifC10DecoderReuse", Desc: "one jpeg2000.Decoder object decodes stream A then stream B: result for B (error status, geometry, pixel bytes) equals a fresh Decoder's, for every ordered pair of 6 stream kinds (RCT, custom MCT markers, MaxShift ROI, plain grey, no colour transform, ROIConfig with COM geometry)", Bounds: [2]string{"4x2 images, 0 levels, 36 ordered pairs, concrete pixels", "same"}, MaxSteps: 900_000_000, Enumerative: true},
+		{Pkg: "jpeg2000", Fn: "VerifC10EncoderReuse", Desc: "one jpeg2000.Encoder object encodes image 1 then image 2: second stream equals a fresh Encoder's and the first result is not overwritten, for the 6 parameter kinds", Bounds: [2]string{"4x2 images, 0 levels, concrete pixels", "same"}, MaxSteps: 900_000_000, Enumerative: true},
 	}})
-	reg(Check{Property: "C18", Assumptions: append([]string{"schedules are not enumerated: if no call writes a location another call can reach (package-level variables, the shared codec object, a shared already-valid parameters object) every interleaving equals the sequential execution; the check decides the absence of such writes on the explored paths and adds a static SSA scan for stores to package-level variables outside init"}, wrapNote...), Harnesses: []Harness{
+	reg(Check{Property: "C18", MsgPrefixes: []string{"C18 "}, Assumptions: append([]string{"schedules are not enumerated: if no call writes a location another call can reach (package-level variables, the shared codec object, a shared already-valid parameters object) every interleaving equals the sequential execution; the check decides the absence of such writes on the explored paths and adds a static SSA scan for stores to package-level variables outside init"}, wrapNote...), Harnesses: []Harness{
 		{Pkg: "internal/zzc10", Fn: "VerifC10Wrapper", Label: "write-set", Desc: wrapDesc, Bounds: wrapBounds, Params: [2]map[string]int64{P("frames", 2), P("frames", 3)}, MaxSteps: 900_000_000},
 	}})
 
